@@ -117,7 +117,77 @@ def parse_apk(b):
     a.get_activities()
 
 
-PARSERS = {"dex": parse_dex, "axml": parse_axml, "arsc": parse_arsc, "apk": parse_apk}
+def parse_apksig(b):
+    """the lazily parsed part of an APK: the APK Signing Block (v2 / v3 / v3.1 signers)"""
+    from androguard.core import apk
+    a = apk.APK(b, raw=True)
+    for q in ("is_signed_v2", "is_signed_v3", "is_signed_v31", "get_certificates_der_v2", "get_certificates_der_v3", "get_certificates_der_v31",
+              "get_public_keys_der_v2", "get_public_keys_der_v3", "get_public_keys_der_v31", "has_duplicate_apk_signature_ids"):
+        try:
+            getattr(a, q)()
+        except steps.BudgetExceeded:
+            raise
+        except Exception:
+            pass   # the other queries still run on the same object (a half-parsed block must not make a later query loop)
+
+
+PARSERS = {"dex": parse_dex, "axml": parse_axml, "arsc": parse_arsc, "apk": parse_apk, "apksig": parse_apksig}
+
+
+def apksig_seeds(rng):
+    """small generated APKs carrying generated APK Signing Blocks (writer of C33) + the shipped small signed APKs"""
+    from vf.checks import c33
+    from vf.model import sigblockw as S
+    out = []
+    for k in range(24):
+        pairs, model, feats = c33.gen_case(rng, k | 1 if k % 3 else k, None)   # mostly with a v2 block
+        raw = S.insert_signing_block(c33.base_apk(rng), S.encode_signing_block(pairs))
+        if len(raw) < 20000:
+            out.append(("generated-sigblock-%d" % k, raw))
+    for name, data in apk_seeds():
+        try:
+            if S.locate_signing_block(data) is not None:
+                out.append((name, data))
+        except Exception:
+            pass
+    return out
+
+
+def mutate_sigblock(rng, seed):
+    """hostile length / count fields inside the APK Signing Block: every structure there is a length-prefixed sequence of length-prefixed
+    elements, so a u32 at any byte offset may be a length; +-small keeps the rest of the block plausible"""
+    from vf.model import sigblockw as S
+    b = bytearray(seed)
+    try:
+        loc = S.locate_signing_block(seed)
+    except Exception:
+        loc = None
+    if loc is None or len(loc[1]) < 48:
+        return bytes(b), "no-block"
+    start, block = loc
+    lo, hi = start + 8, start + len(block) - 24 - 4
+    mode = rng.choice(["len-plus", "len-plus", "len-minus", "len-huge", "len-zero", "len-to-end", "cut-inside-block"])
+    # prefer offsets that hold a plausible length (value smaller than the block)
+    cands = [p for p in range(lo, hi) if struct.unpack_from("<I", b, p)[0] <= len(block)]
+    p = rng.choice(cands) if cands and rng.random() < 0.8 else rng.randrange(lo, hi)
+    (old,) = struct.unpack_from("<I", b, p)
+    if mode == "len-plus":
+        new = old + rng.choice([1, 2, 3, 4, 8, 12, 64, 1000])
+    elif mode == "len-minus":
+        new = max(0, old - rng.choice([1, 2, 3, 4, 8, 12]))
+    elif mode == "len-huge":
+        new = rng.choice([0xFFFFFFFF, 0x7FFFFFFF, 0x80000000, 0x00FFFFFF])
+    elif mode == "len-zero":
+        new = 0
+    elif mode == "len-to-end":
+        new = start + len(block) - p + rng.choice([-8, -4, 0, 4])
+    else:
+        # the pair value ends early: zero the rest of the block body (sizes stay consistent)
+        for q in range(p, hi + 4):
+            b[q] = 0
+        return bytes(b), mode
+    struct.pack_into("<I", b, p, new & 0xFFFFFFFF)
+    return bytes(b), mode
 
 
 # ---------------------------------------------------------------------------------------------------- mutators
@@ -254,7 +324,8 @@ def hostile_zip(rng, seed):
 def shard(ctx, arg):
     kind, idx, count = arg
     rng = ctx.rng("c35", kind, idx)
-    seeds = {"dex": lambda: dex_seeds(ctx.rng("c35-seeds")), "axml": axml_seeds, "arsc": arsc_seeds, "apk": apk_seeds}[kind]()
+    seeds = {"dex": lambda: dex_seeds(ctx.rng("c35-seeds")), "axml": axml_seeds, "arsc": arsc_seeds, "apk": apk_seeds,
+             "apksig": lambda: apksig_seeds(ctx.rng("c35-sig-seeds"))}[kind]()
     if not seeds:
         ctx.inconclusive("no %s seeds" % kind)
         return
@@ -286,13 +357,16 @@ def shard(ctx, arg):
     for k in range(count):
         name, s = rng.choice(ok_seeds)
         r = rng.random()
-        if r < 0.7:
+        if kind == "apksig" and r < 0.85:
+            data, how = mutate_sigblock(rng, s)
+            how = "sigblock-" + how
+        elif r < 0.7:
             data, how = mutate(rng, kind, s)
             how = "mutation-" + how
         elif kind == "apk" and r < 0.85:
             data, how = hostile_zip(rng, s)
             how = "zip-" + how
-        elif kind == "apk":
+        elif kind in ("apk", "apksig"):
             data, how = mutate(rng, kind, s)
             how = "mutation-" + how
         else:
@@ -332,11 +406,13 @@ def run(ctx):
     ctx.rule = ("seeds: generated DEX files + every shipped small DEX / binary XML / resources.arsc / APK; hostile inputs = byte/bit/truncation/splice/zero-run mutations, "
                 "4-byte fields set to 0xFFFFFFFF/0x7FFFFFFF/size+-1, crafted files (string data without terminator at end of file, counts at 2^32-1, chunk sizes 0/backwards/huge, "
                 "zip central directories pointing into themselves), DEX checksums re-fixed. Real calls: DEX(b)+bounded walk, AXMLPrinter(b).get_xml(), ARSCParser(b)+resolve, "
-                "APK(b, raw=True)+queries, each under a sys.monitoring step budget of 100x the calibrated linear envelope. distinct non-trivial = distinct (parser, mutation kind, size class)")
+                "APK(b, raw=True)+queries, APK(b, raw=True)+every v2/v3/v3.1 signing-block query on generated and shipped signed APKs whose block has one length field "
+                "made larger/smaller/huge/zero or its tail zeroed, each under a sys.monitoring step budget of 100x the calibrated linear envelope. distinct non-trivial = distinct (parser, mutation kind, size class)")
     ctx.assumptions = ["'bounded by the input size' is operationalised as 'within 100x the (const + ratio*n) step envelope measured on valid inputs in the same run'",
                        "loops inside C extensions (zlib, lxml, struct) are invisible to the step counter; they would surface as a shard watchdog = inconclusive",
                        "any exception is an acceptable outcome"]
-    per = {"dex": 2400, "axml": 2400, "arsc": 1200, "apk": 480} if ctx.quick else {"dex": 120000, "axml": 120000, "arsc": 60000, "apk": 16000}
+    per = ({"dex": 2400, "axml": 2400, "arsc": 1200, "apk": 480, "apksig": 1600} if ctx.quick else
+           {"dex": 120000, "axml": 120000, "arsc": 60000, "apk": 16000, "apksig": 60000})
     args = []
     for kind, n in per.items():
         for i in range(4):
